@@ -74,6 +74,15 @@ class GarbageCollector:
         """
         stats = {"data_files": 0, "manifest_files": 0, "manifest_lists": 0}
 
+        # 0. Load in-flight protection markers (and sweep abandoned ones) BEFORE
+        # reading the metadata. A committing transaction removes its markers only
+        # after the pointer flip, so with this order a file whose marker is
+        # already gone is reachable from the metadata read below. Reading the
+        # metadata first leaves a window (commit + marker cleanup between the two
+        # reads) in which a just-committed file older than the grace period is
+        # neither reachable nor protected - and gets deleted.
+        protected_files = self._load_inflight_protection(inflight_timeout_ms)
+
         # 1. Refresh metadata to get latest view
         metadata = self.metadata_manager.refresh()
         if not metadata:
@@ -130,8 +139,7 @@ class GarbageCollector:
         logger.info(f"Found reachable: {len(reachable_manifest_lists)} manifest lists, "
                     f"{len(reachable_manifests)} manifests, {len(reachable_data_files)} data files")
 
-        # 3. Load in-flight protection markers (and sweep abandoned ones)
-        protected_files = self._load_inflight_protection(inflight_timeout_ms)
+        # 3. In-flight protection was loaded up front (step 0)
         if protected_files:
             logger.info(f"Protecting {len(protected_files)} in-flight files from GC")
 
